@@ -109,7 +109,7 @@ Receive(d, a, j, rep) ==
      IN /\ mem' = r.mem /\ deferred' = r.deferred /\ cur' = r.cur /\ timers' = r.timers
         /\ calls' = calls \o r.call /\ ups' = ups \o r.up
         /\ bad' = IF dupEffect THEN "C16_DuplicateEffect"
-                  ELSE IF r.call # s[1] THEN "C12_TrainAssembly"
+                  ELSE IF r.call # s[1] THEN (IF r.call # <<>> /\ CHasDup(r.call[1].pk) THEN "C16_DuplicateEffect" ELSE "C12_TrainAssembly")
                   ELSE IF r.up # s[2] THEN "C06_ResponseHandedOn"
                   ELSE ""
   /\ gm' = CGuard(K, gm, d, now)
